@@ -508,4 +508,58 @@ inline std::string quoteWord( const std::string& word, unsigned style, bool forc
    return out;
 }
 
+// ------------------------------------------------ hostile / mutated words
+
+inline std::string randomBytes( Rng& rng, size_t len, bool allow_nul)
+{
+   std::string  s;
+   for (size_t k = 0; k < len; ++k)
+   {
+      unsigned  c = static_cast< unsigned>( rng.below( 256));
+      if (c == 0 && !allow_nul) c = 1 + static_cast< unsigned>( rng.below( 255));
+      s.push_back( static_cast< char>( c));
+   }
+   return s;
+}
+
+inline std::string punctWord( Rng& rng)
+{
+   static const char  set[] = "--==()!!-";
+   std::string   s;
+   const size_t  len = 1 + static_cast< size_t>( rng.below( 6));
+   for (size_t k = 0; k < len; ++k) s.push_back( set[ rng.below( sizeof( set) - 1)]);
+   return s;
+}
+
+/// words of a rule-obeying line for the recipe, then optionally mutated
+inline std::vector< std::string> grammarWords( Rng& rng, const Built& built, bool mutate)
+{
+   std::vector< std::string>  words;
+   for (auto const& a : built.args)
+   {
+      if (rng.chance( 1, 2)) continue;
+      auto  w = genWords( rng, a, genValues( rng, a, true));
+      words.insert( words.end(), w.begin(), w.end());
+   }
+   if (!mutate || words.empty())
+      return words;
+   const size_t  nm = 1 + static_cast< size_t>( rng.below( 3));
+   for (size_t m = 0; m < nm && !words.empty(); ++m)
+   {
+      const size_t  at = static_cast< size_t>( rng.below( words.size()));
+      switch (rng.below( 8))
+      {
+      case 0: words.erase( words.begin() + static_cast< long>( at)); break;
+      case 1: words.insert( words.begin() + static_cast< long>( at), words[ at]); break;
+      case 2: std::swap( words[ at], words[ rng.below( words.size())]); break;
+      case 3: if (words[ at].size() > 1) words[ at].resize( 1 + rng.below( words[ at].size() - 1)); break;
+      case 4: if (at + 1 < words.size()) { words[ at] += words[ at + 1]; words.erase( words.begin() + static_cast< long>( at) + 1); } break;
+      case 5: words.insert( words.begin() + static_cast< long>( at), punctWord( rng)); break;
+      case 6: words[ at] = "-" + words[ at]; break;
+      default: words.insert( words.begin() + static_cast< long>( at), randomBytes( rng, 1 + rng.below( 8), false)); break;
+      }
+   }
+   return words;
+}
+
 } // namespace recipes
